@@ -161,7 +161,8 @@ Proof.
   exists (fun _ => 1%R), [TStr "c"], [mk_blob "c"]. split; [reflexivity|].
   assert (E1 : run_adds_with add_nb_orig [TStr "c"] [mk_blob "c"] = [mkTerm 2 "c" true]) by (vm_compute; reflexivity).
   assert (E2 : to_term (TStr "c") = Ok (mkTerm 1 "c" false)) by (vm_compute; reflexivity).
-  rewrite E1. unfold sum_args, arg_val. simpl fold_right. rewrite E2. unfold denote, term_val. simpl. lra.
+  assert (E3 : arg_val (fun _ => 1%R) (TStr "c") = 1%R) by (unfold arg_val; rewrite E2; simpl; lra).
+  rewrite E1. unfold sum_args. cbn [fold_right]. rewrite E3. unfold denote, term_val. simpl. lra.
 Qed.
 Print Assumptions C12_merge_orig_refuted.
 
@@ -172,10 +173,13 @@ Theorem C12_join_orig_refuted :
 Proof. split; [vm_compute; reflexivity|]. exists ["x"; "y"]. vm_compute. discriminate. Qed.
 Print Assumptions C12_join_orig_refuted.
 
-(** D12c (recorded): an opaque leading expression loses its spaces. *)
+(** D12c (recorded): a leading expression loses its spaces -- a keyword expression collapses into
+    one name (and is then even taken for a plain term), or into an opaque text that no longer
+    parses. *)
 Theorem C12_blob_spaces_refuted :
-  equation_init "x" "" (RStr "a if b else c") = Ok (mkEqn "x" "" [mkTerm 1 "aifbelsec" true]).
-Proof. vm_compute. reflexivity. Qed.
+  equation_init "x" "" (RStr "a if b else c") = Ok (mkEqn "x" "" [mkTerm 1 "aifbelsec" false]) /\
+  equation_init "x" "" (RStr "(a if b else c)*2") = Ok (mkEqn "x" "" [mkTerm 1 "(aifbelsec)*2" true]).
+Proof. split; vm_compute; reflexivity. Qed.
 Print Assumptions C12_blob_spaces_refuted.
 
 (** D12d (recorded): a leading expression that binds looser than '+' is not parenthesised, the
